@@ -414,7 +414,11 @@ class Ctx:
         REPLAY.mkdir(exist_ok=True)
         unknown_failures = []
         for f in failures:
-            kid = classify(f) if classify else None
+            try:
+                kid = classify(f) if classify else None
+            except Exception:
+                kid = None
+                self.notes.append("classify crashed: " + traceback.format_exc()[-400:])
             if kid is not None and kid in known_ids:
                 if kid not in seen_known:
                     seen_known.add(kid)
